@@ -179,6 +179,18 @@ def build(spec):
             evs.append(b)
             if e is not None:
                 evs.append(e)
+        if spec.get("ctr_collide", True):
+            # user counter samples in the input: two samples of ONE track at the same instant (end of one interval,
+            # start of the next) and a third one half a nanosecond later, next to a slice that starts in between
+            host("ctr_neighbour", 509, 470.00025, 470.5, x_form=True)
+            nb = pairs.pop()
+            cs = [{"ph": "C", "name": "usr_counter", "pid": r, "ts": HOST_EPOCH + t, "args": {"v": v}}
+                  for t, v in ((470.0, 3), (470.0, 0), (470.0005, 2))]
+            # (never between a B and its E: the two halves of a slice are adjacent in the file)
+            k = next((i for i, e in enumerate(evs) if e["ts"] > HOST_EPOCH + 470.0 and (i == 0 or evs[i - 1]["ph"] != "B")),
+                     len(evs))
+            evs[k:k] = cs[:2] + [nb[0]] + cs[2:]
+            pairs.append(nb)
         if spec.get("meta"):
             evs.insert(0, {"ph": "M", "name": "process_name", "pid": r, "ts": 0, "args": {"name": f"rank{r}"}})
         fname = f"rank{r}/flex_trace.json" if spec.get("layout") == "subdirs" else f"trace_rank_{r}.json"
